@@ -150,7 +150,7 @@ pub fn execute_specs(specs: &[Spec], prop: &str, thorough: bool) -> (Vec<Violati
 }
 
 pub fn run_budget_secs() -> u64 {
-    std::env::var("VERIF_RUN_BUDGET_S").ok().and_then(|s| s.parse().ok()).unwrap_or(120)
+    std::env::var("VERIF_RUN_BUDGET_S").ok().and_then(|s| s.parse().ok()).unwrap_or(30)
 }
 
 /// `check --replay <file>`: exit 1 + VIOLATION line if it reproduces.
@@ -449,7 +449,12 @@ fn minimise_and_write(d: &Driver, v: &Violation) -> PathBuf {
     let prop = d.args.prop.clone();
     let thorough = d.args.tier == Tier::Thorough;
     let cfg = PoolConfig { workers: d.args.workers, chunk: 1, run_budget: Duration::from_secs(run_budget_secs()), deadline: None, thorough };
-    let mut shr = Shrinker { cfg: &cfg, evaluations: 0, budget: if thorough { 6000 } else { 1500 } };
+    let mut shr = Shrinker {
+        cfg: &cfg,
+        evaluations: 0,
+        budget: if thorough { 6000 } else { 1500 },
+        deadline: Instant::now() + Duration::from_secs(if thorough { 600 } else { 120 }),
+    };
     let original: Vec<Spec> = v.witnesses.clone();
     let mut specs = original.clone();
     let class = v.class.clone();
